@@ -92,6 +92,21 @@ def key_shape(body, callee=None):
     raise Untranslatable('unexpected construct %s around key and forwarded arguments' % k)
 
 
+def key_copied(body):
+    """is the key held in an object of its own?  For a key obtained in its own declaration
+    statement: the declared type is not a reference (a `const auto &` / `Event &&` would alias
+    whatever a reference-returning getEvent policy hands back — possibly a parameter that is
+    moved away afterwards).  In the other shapes the key initialises a member / parameter directly."""
+    for st in walk(body):
+        if st.get('kind') != 'DeclStmt':
+            continue
+        for v in kids(st):
+            if v.get('kind') == 'VarDecl' and any(is_getevent_call(x) for x in walk(v)):
+                q = v.get('type', {}).get('qualType', '')
+                return '&' not in q
+    return True
+
+
 def leaf_dispatch(out):
     tu = ('#include "eventpp/eventqueue.h"\n#include "eventpp/hetereventqueue.h"\n'
           'template class eventpp::EventQueue<int, void(int)>;\n')
@@ -100,6 +115,7 @@ def leaf_dispatch(out):
     if len(ds) != 2:
         raise Untranslatable('expected two dispatch overloads in EventDispatcherBase, found %d' % len(ds))
     d_shapes = [key_shape(b, 'directDispatch') for _, b in ds]
+    d_copied = [key_copied(b) for _, b in ds]
     trees = clang_ast(tu, 'EventQueueBase')
     es = [f for f in functions(trees, 'enqueue', within='EventQueueBase')]
     if len(es) != 2:
@@ -110,11 +126,13 @@ def leaf_dispatch(out):
     if len(hs) != 2:
         raise Untranslatable('expected two doEnqueue overloads in HeterEventQueueBase, found %d' % len(hs))
     h_shapes = [key_shape(b, 'doEnqueueItem') for _, b in hs]
+    h_copied = [key_copied(b) for _, b in hs]
     trees = clang_ast(tu, 'HeterEventDispatcherBase')
     hd = functions(trees, 'doDispatch', within='HeterEventDispatcherBase')
     if len(hd) != 2:
         raise Untranslatable('expected two doDispatch overloads in HeterEventDispatcherBase, found %d' % len(hd))
     hd_shapes = []
+    hd_copied = [key_copied(b) for _, b in hd]
     for _, b in hd:
         stmts = kids(b)
         keydecl = [i for i, s in enumerate(stmts) if s.get('kind') == 'DeclStmt' and mentions(s, 'getEvent')]
@@ -158,8 +176,16 @@ Definition heter_dispatch_incl_shape : sequencing := %s.
 Definition heter_dispatch_excl_shape : sequencing := %s.
 (* DefaultGetEvent::getEvent(U && e, ...) { return e; } : a plain return of the forwarding-reference parameter *)
 Definition getevent_returns_param_plainly : bool := %s.
-''' % (b(d_shapes[0]), b(d_shapes[1]), b(e_shapes[0]), b(e_shapes[1]), b(h_shapes[0]), b(h_shapes[1]),
-       b(hd_shapes[0]), b(hd_shapes[1]), returns_param)
+(* the key lives in an object of its own (declared by value), not in a reference to what getEvent returned *)
+Definition dispatch_key_copied : bool := %s.
+Definition dispatch_first_key_copied : bool := %s.
+Definition heter_enqueue_incl_key_copied : bool := %s.
+Definition heter_enqueue_excl_key_copied : bool := %s.
+Definition heter_dispatch_incl_key_copied : bool := %s.
+Definition heter_dispatch_excl_key_copied : bool := %s.
+''' % ((b(d_shapes[0]), b(d_shapes[1]), b(e_shapes[0]), b(e_shapes[1]), b(h_shapes[0]), b(h_shapes[1]),
+        b(hd_shapes[0]), b(hd_shapes[1]), returns_param)
+       + tuple('true' if x else 'false' for x in d_copied + h_copied + hd_copied))
 
 
 LEAVES = [('dispatch', leaf_dispatch)]
